@@ -69,3 +69,15 @@ contract("proto:reader_next", trusted=True,
     ensures={"delivers_head": "old(view) == [result] + view"},
     raises={"StopIteration": {"exhausted": "old(view) == [] and view == []"}},
     note="reader.next() over the ghost view G1")
+
+contract("proto:stmt_call@dynamic", trusted=True,
+    types=dict(reader="FortranReaderBase"), returns="ref:Base?",
+    modifies=["view", "*.fifo_item", "*.linecount", "*.filo_line", "*.source_lines", "*.isclosed"],
+    ensures={
+        "no_match_restores": "implies(result is None, view == old(view))",
+        "match_consumes_prefix": "implies(result is not None, old(view) == consumed(result) + view and len(consumed(result)) > 0)",
+        "result_is_new_node": "implies(result is not None, not was_allocated(result))",
+    },
+    raises={"*!NoMatchError!StopIteration": {}},
+    note="a statement rule looked up by name and called on the reader (Base.__new__ statement branch, proved as Base.__new__@stmt: "
+         "NoMatchError of the string rule is caught there and reported as None)")
